@@ -472,7 +472,7 @@ def normalise(project, path=PINNED):
         rec_names = {x[0] for x in rec_locals}
         rec_defs = [tuple(x) for x in rec[q].get("defs", [])]
         try:
-            for _round in range(8):
+            for _round in range(12):
                 progress = 0
                 m = plan(fi.node, rec_locals)
                 if m:
@@ -485,13 +485,15 @@ def normalise(project, path=PINNED):
                     k = mirror_comparisons(fi.node, rec[q]["compares"])
                     stats["comparisons_mirrored"] += k
                     progress += k
-                k = inline_new_locals(fi.node, rec_names)
-                stats["locals_inlined"] += k
-                progress += k
                 present = {c[0] for c in function_locals(fi.node)}
                 k = reextract(fi.node, rec_defs, present)
                 stats["locals_reextracted"] += k
                 progress += k
+                if not progress:
+                    # only when renaming / mirroring / re-extraction have settled: what is still unrecorded is new
+                    k = inline_new_locals(fi.node, rec_names)
+                    stats["locals_inlined"] += k
+                    progress += k
                 if not progress:
                     break
                 if _round == 0:
